@@ -34,6 +34,22 @@ NCPU = os.cpu_count() or 4
 sys.path.insert(0, os.path.join(ROOT, "tools"))
 import props  # noqa: E402  per-property configuration
 
+# Mutation testing only (tools/try_patch.py): DDSV_ALT_REPO=<scratch worktree of /repo> builds a copy of the harness
+# against that tree instead of /repo, and DDSV_OUT=<dir> receives evidence/, replays/ and scratch files, so that
+# such runs neither touch /repo nor overwrite the evidence of the real tree. Registered commands never set these.
+ALT_REPO = os.environ.get("DDSV_ALT_REPO")
+OUT = os.environ.get("DDSV_OUT", ROOT)
+if ALT_REPO:
+    if os.path.abspath(OUT) == ROOT:
+        sys.exit("DDSV_ALT_REPO needs DDSV_OUT outside /verif")
+    os.makedirs(OUT, exist_ok=True)
+    _dst = os.path.join(OUT, "harness")
+    subprocess.run(["rsync", "-a", "--delete", "--exclude", "target", HARNESS + "/", _dst + "/"], check=True)
+    _ct = open(os.path.join(_dst, "Cargo.toml")).read().replace('path = "/repo"', f'path = "{os.path.abspath(ALT_REPO)}"')
+    open(os.path.join(_dst, "Cargo.toml"), "w").write(_ct)
+    HARNESS = _dst
+    SCRATCH = os.path.join(OUT, ".scratch")
+
 
 def sh(cmd, cwd=None, env=None, stdin=None, timeout=None):
     e = dict(os.environ)
@@ -197,16 +213,19 @@ def run_stream(cmd, lines):
     return R, O
 
 
-def canonical_equal(pid, a, b):
+def canonical_equal(pid, a, b, case=None):
     cmp = getattr(props, f"equal_{pid}", None)
-    return cmp(a, b) if cmp else a == b
+    if not cmp:
+        return a == b
+    # a hook may take the case line as a third argument
+    return cmp(a, b, case) if cmp.__code__.co_argcount >= 3 else cmp(a, b)
 
 
 def write_replay(pid, kind, payload):
-    os.makedirs(os.path.join(ROOT, "replays"), exist_ok=True)
+    os.makedirs(os.path.join(OUT, "replays"), exist_ok=True)
     blob = json.dumps(payload, sort_keys=True)
     h = hashlib.sha1(blob.encode()).hexdigest()[:12]
-    path = os.path.join(ROOT, "replays", f"{pid}-{kind}-{h}.json")
+    path = os.path.join(OUT, "replays", f"{pid}-{kind}-{h}.json")
     with open(path, "w") as f:
         json.dump(payload, f, indent=1, sort_keys=True)
     return path
@@ -284,7 +303,7 @@ def run_one(pid, report_pid, tier, seed, replay_payload):
         for n in range(len(cases)):
             a = impl[prof].get(n)
             b = model.get(n)
-            if a is None or b is None or not canonical_equal(pid, a, b):
+            if a is None or b is None or not canonical_equal(pid, a, b, cases[n]):
                 disagreements.append((n, prof, a, b))
     # evidence statistics
     nontrivial = getattr(props, f"nontrivial_{pid}", lambda c, r: not r.startswith("err") and r != "bad-case")
@@ -395,7 +414,7 @@ def main():
             i += 1
     seed = int(os.environ.get("VERIF_SEED", "1"))
     t0 = time.time()
-    os.makedirs(os.path.join(ROOT, "evidence"), exist_ok=True)
+    os.makedirs(os.path.join(OUT, "evidence"), exist_ok=True)
     top = props.PROPS[pid]
     subs = [pid] + top.get("sub_checks", [])
     replay_payload = json.load(open(replay)) if replay else None
@@ -448,7 +467,7 @@ def main():
         "violations": 1 if exit_code else 0,
     }
     if replay is None:
-        with open(os.path.join(ROOT, "evidence", f"{pid}.json"), "w") as f:
+        with open(os.path.join(OUT, "evidence", f"{pid}.json"), "w") as f:
             json.dump(ev, f, indent=1)
     if replay and exit_code == 0:
         log("replay: the recorded case no longer fails")
